@@ -76,17 +76,7 @@ def classify(content):
     return None
 
 
-def all_fns(content):
-    for _, v in content["vars"] + content["pars"]:
-        if "ia" in v:
-            yield v["ia"]
-    for _, f in content["derived"]:
-        yield f
-    for _, r in content["rxns"]:
-        yield r
-        for _, cj in r["st"]:
-            if "c" not in cj:
-                yield cj
+all_fns = cg.all_fns
 
 
 def to_lean_wire(content):
@@ -179,20 +169,11 @@ def structure_of(m):
     }
 
 
-def _real_worker(case):
-    import logging
-    import warnings
-
-    warnings.filterwarnings("ignore")
-    logging.disable(logging.CRITICAL)
+def _round_trip(m, qs):
+    """answers of the model, generated source, answers of the model rebuilt by executing that source"""
     from mxlpy.meta import generate_mxlpy_code
 
     out = {}
-    try:
-        m = cg.build_model(case["content"], random.Random(case.get("decl_seed", 0)))
-    except Exception as e:  # noqa: BLE001
-        return {"build_err": type(e).__name__ + ": " + str(e)[:200]}
-    qs = case["queries"]
     out["S"] = [cc.canon_R(q, C.run_query(m, q)) for q in qs]
     out["S_struct"] = structure_of(m)
     try:
@@ -218,6 +199,33 @@ def _real_worker(case):
     out["R"] = [cc.canon_R(q, C.run_query(m2, q)) for q in qs]
     out["R_struct"] = structure_of(m2)
     return out
+
+
+def _real_worker(case):
+    import logging
+    import warnings
+
+    warnings.filterwarnings("ignore")
+    logging.disable(logging.CRITICAL)
+    pool = cg.FnPool()
+    try:
+        try:
+            m = cg.build_model(case["content"], random.Random(case.get("decl_seed", 0)), pool)
+        except Exception as e:  # noqa: BLE001
+            return {"build_err": type(e).__name__ + ": " + str(e)[:200]}
+        out = _round_trip(m, case["queries"])
+        if case.get("session"):
+            # same process, same function objects: the module-level constants they read change, then a model is
+            # built from them again and its source generated again
+            pool.mutate()
+            try:
+                m_again = cg.build_model(case["content"], random.Random(case.get("decl_seed", 0)), pool)
+                out["phase2"] = _round_trip(m_again, case["queries"])
+            except Exception as e:  # noqa: BLE001
+                out["phase2"] = {"build_err": type(e).__name__ + ": " + str(e)[:200]}
+        return out
+    finally:
+        pool.cleanup()
 
 
 _pool = None
@@ -268,79 +276,88 @@ def exhaustive_cases(thorough: bool):
     return out
 
 
+def _request(c, content):
+    table, wc = to_lean_wire(content)
+    return {"op": "c11", "fns": table, "content": wc, "bad": c.get("bad", []), "queries": c["queries"]}
+
+
 def evaluate(cases, use_driver=True):
+    """-> [(R, M)]; M = {"phase1": …, "phase2": …} for a session case, None for oracle-only cases"""
     Rs = pool().map(_real_worker, cases, chunksize=4)
+    Ms = [None] * len(cases)
     if use_driver:
-        reqs = []
-        for c in cases:
-            table, wc = to_lean_wire(c["content"])
-            reqs.append({"op": "c11", "fns": table, "content": wc, "bad": c.get("bad", []), "queries": c["queries"]})
-        Ms = driver.call_batch(reqs)
-    else:
-        Ms = [None] * len(cases)
+        reqs, where = [], []
+        for i, c in enumerate(cases):
+            if c.get("oracle_only"):
+                continue
+            reqs.append(_request(c, c["content"]))
+            where.append((i, "phase1"))
+            if c.get("session"):
+                reqs.append(_request(c, cg.content_phase2(c["content"])))
+                where.append((i, "phase2"))
+        for (i, ph), r in zip(where, driver.call_batch(reqs)):
+            if cases[i].get("session"):
+                Ms[i] = Ms[i] or {}
+                Ms[i][ph] = r
+            else:
+                Ms[i] = r
     return list(zip(Rs, Ms))
 
 
 # --------------------------------------------------------------------------- generator
 
 
-class Namer:
-    """chooses `__name__`s: fresh, shared (same function object reused with other arguments) or colliding"""
+Namer = cg.Namer
 
-    def __init__(self, rng, p_share, p_collide, p_cross):
-        self.rng, self.p_share, self.p_collide, self.p_cross = rng, p_share, p_collide, p_cross
-        self.reg = []  # (name, e, arity)
-        self.n = 0
 
-    def __call__(self, rng, role, d):
-        arity = len(d["args"])
-        same = [r for r in self.reg if r[2] == arity]
-        x = rng.random()
-        if same and x < self.p_share:
-            name, e, _ = rng.choice(same)
-            d["e"] = copy.deepcopy(e)
-            return name
-        if same and x < self.p_share + self.p_collide:
-            name = rng.choice(same)[0]          # another function, same __name__, same arity
-            self.reg.append((name, d["e"], arity))
-            return name
-        if same and x < self.p_share + self.p_collide + self.p_cross:
-            base = rng.choice(same)[0]          # names that meet the generator's derived keys (same arity)
-            name = rng.choice([f"init_{base}", f"r0_stoich_{base}", f"r1_stoich_{base}"])
-            while any(r[0] == name and r[2] == arity for r in self.reg) and rng.random() < 0.7:
-                name += "_"                     # ... and the names the generator would move on to
-            if any(r[0] == name and r[2] != arity for r in self.reg) or len(name) > 40:
-                name = f"f{self.n}"
-                self.n += 1
-        else:
-            name = f"f{self.n}"
-            self.n += 1
-        self.reg.append((name, d["e"], arity))
-        return name
+def rich_queries(rng, content):
+    qs = [["init"], ["pvals"], ["args", None, "0"], ["rhs", None, "0"], ["fluxes", None, "0"]]
+    for _ in range(2):
+        st = [[k, str(rng.choice([1, 2, 4, 8]))] for k, _ in content["vars"]]
+        t = str(rng.choice([1, 2]))
+        qs += [["args", st, t], ["fluxes", st, t], ["rhs", st, t], ["call", t, [v for _, v in st]], ["stoich", st, t]]
+    return qs
 
 
 def gen_case(ctx, i):
     rng = ctx.rng
     r = rng.random()
-    if r < 0.45:
+    extra, kw = {}, {}
+    if r < 0.32:
         stratum, namer, dup = "unique+shared", Namer(rng, 0.35, 0.0, 0.0), 0.0
-    elif r < 0.7:
+    elif r < 0.50:
         stratum, namer, dup = "colliding", Namer(rng, 0.2, 0.25, 0.15), 0.0
-    elif r < 0.85:
+    elif r < 0.62:
         stratum, namer, dup = "repeated-argument", Namer(rng, 0.25, 0.0, 0.0), 0.35
-    elif r < 0.93:
+    elif r < 0.68:
         stratum, namer, dup = "cross-key", Namer(rng, 0.2, 0.0, 0.4), 0.0
-    else:
+    elif r < 0.73:
         stratum, namer, dup = "untranslatable", Namer(rng, 0.0, 0.0, 0.0), 0.0
-    content = cg.gen_content(rng, all_vars_have_eq=rng.random() < 0.6, p_ia_par=0.12, p_ia_var=0.25, p_dyn_coef=0.35,
-                             name_fn=namer, p_dup_arg=dup)
+    elif r < 0.88:   # functions in modules with module-level float constants (read / merely named like a parameter);
+        #              session: the constants change, a model is built from the same functions and generated again
+        stratum, namer, dup = "module-constants", Namer(rng, 0.3, 0.0, 0.0), 0.0
+        kw = {"p_modconst": 0.6}
+    else:            # wider expression fragment (/ % ** unary minus, nested): oracle only, R vs S to 1e-9
+        stratum, namer, dup = "wider-expressions", Namer(rng, 0.3, 0.0, 0.0), 0.0
+        kw = {"rich": True, "small": (1, 2, 4), "p_time": 0.0, "n_pars": (1, 3)}
+        extra["oracle_only"] = True
+    if kw.get("rich"):
+        content = cg.gen_content(rng, all_vars_have_eq=rng.random() < 0.6, p_ia_par=0.1, p_ia_var=0.2, p_dyn_coef=0.35,
+                                 name_fn=namer, **kw)
+        qs = rich_queries(rng, content)
+    else:
+        content = cg.gen_content(rng, all_vars_have_eq=rng.random() < 0.6, p_ia_par=0.12, p_ia_var=0.25, p_dyn_coef=0.35,
+                                 name_fn=namer, p_dup_arg=dup, **kw)
+        qs = cc.standard_queries(rng, content, n_states=2)
+    if stratum == "module-constants":
+        extra["session"] = cg.has_session(content)
     bad = []
     if stratum == "untranslatable":
         f = rng.choice(list(all_fns(content)))
         f["bad"] = True
         bad = [f["name"]]
-    qs = cc.standard_queries(rng, content, n_states=2)
-    return {"content": content, "bad": bad, "queries": qs, "decl_seed": rng.randrange(1 << 30), "stratum": stratum}
+    return dict({"content": content, "bad": bad, "queries": qs, "decl_seed": rng.randrange(1 << 30), "stratum": stratum},
+                **extra)
 
 
 # --------------------------------------------------------------------------- verdicts
@@ -354,13 +371,63 @@ def canon_M_err(e):
 
 
 def judge_case(ctx, case, R, M):
+    if "build_err" in R and case.get("oracle_only") and R["build_err"].startswith("ZeroDivisionError"):
+        ctx.hist["skipped_model_raises"] = ctx.hist.get("skipped_model_raises", 0) + 1
+        return
     if "build_err" in R:
         ctx.violation(case, R, "harness could not build the model")
         return
+    if case.get("oracle_only"):
+        judge_oracle_only(ctx, case, R)
+        return
+    if case.get("session") and "phase2" in R:
+        judge_phase(ctx, case, R, None if M is None else M.get("phase1"))
+        case2 = dict(case, content=cg.content_phase2(case["content"]), _orig=case,
+                     stratum=case.get("stratum", "?") + "/after-constants-changed")
+        if "build_err" in R["phase2"]:
+            ctx.violation(case, R["phase2"], "harness could not rebuild the model after the constants changed")
+            return
+        judge_phase(ctx, case2, R["phase2"], None if M is None else M.get("phase2"),
+                    tag=" [second generation, after module constants changed]")
+        return
+    judge_phase(ctx, case, R, M)
+
+
+def judge_oracle_only(ctx, case, R):
+    """wider expression fragment: the generated source is executed and the rebuilt model compared with the original
+    through every query to a relative tolerance of 1e-9; no Lean model, no order-free spec"""
+    classes = cg.rich_classes(case["content"])
+    fid = "F-C11-4" if "recip-modulus" in classes else "F-C11-5" if "shared-modulus" in classes else None
+    ctx.count({k: case[k] for k in ("content", "queries", "bad")},
+              f"{case.get('stratum', '?')}:{cg.shape_of(case['content'])}:{fid or 'in-scope'}")
+    base = {k: case[k] for k in ("content", "bad", "decl_seed", "oracle_only") if k in case}
+    if all("err" in S or not cg.finite_answer(S) for S in R["S"]):
+        ctx.hist["skipped_model_raises"] = ctx.hist.get("skipped_model_raises", 0) + 1
+        return
+    if "gen" in R:
+        ctx.judge(dict(base, queries=[]), R["gen"], {"ok": "source emitted"}, None, what="generation raised (wider expression fragment)")
+        return
+    if classify(case["content"]) is None:
+        ctx.judge(dict(base, queries=[]), R["R_struct"], R["S_struct"], None,
+                  what="component names / kinds / arguments / plain values (wider expression fragment)")
+    else:
+        return      # name collisions / repeated arguments are the subject of the exact strata
+    for i, q in enumerate(case["queries"]):
+        S, Rq = R["S"][i], R["R"][i]
+        if "err" in S or not cg.finite_answer(S):
+            ctx.hist["skipped_model_raises"] = ctx.hist.get("skipped_model_raises", 0) + 1
+            continue
+        if cg.close(Rq, S):
+            Rq = S
+        ctx.judge(dict(base, queries=[q]), Rq, S, None, finding=fid, what=f"round trip, query {q[0]} (wider expression fragment)")
+
+
+def judge_phase(ctx, case, R, M, tag=""):
     fid = classify(case["content"])
     ctx.count({k: case[k] for k in ("content", "queries", "bad")},
               f"{case.get('stratum', '?')}:{cg.shape_of(case['content'])}:{fid or 'in-scope'}")
-    base = {k: case[k] for k in ("content", "bad", "decl_seed") if k in case}
+    oc = case.get("_orig", case)     # a violation of the second phase is replayed as the whole session
+    base = {k: oc[k] for k in ("content", "bad", "decl_seed", "session") if k in oc}
     # ---- generation raises exactly when a function cannot be translated
     if case.get("bad"):
         Rg = R.get("gen", {"ok": "source emitted"})
@@ -385,7 +452,7 @@ def judge_case(ctx, case, R, M):
         Mp = M["program"]
         if "ok" in Mp:
             if Mp["ok"] != R["shape"] and R["shape"] != {"err": ["SyntaxError"]}:
-                ctx.add_drift(dict(base, queries=[]), R["shape"], Mp["ok"], "generated program (defs, builder calls)")
+                ctx.add_drift(dict(base, queries=[]), R["shape"], Mp["ok"], "generated program (defs, builder calls)" + tag)
             elif R["shape"] == {"err": ["SyntaxError"]}:
                 # the text is not Python: compare what can still be compared (definition keys and parameters by regex)
                 import re
@@ -399,7 +466,7 @@ def judge_case(ctx, case, R, M):
     # ---- names, kinds, wiring
     ctx.judge(dict(base, queries=[]), R["R_struct"], R["S_struct"],
               None if fid != "F-C11-2" else ({"err": ["SyntaxError"]} if M is None or "err" in M["rt"] else "lean-ok"),
-              finding=fid if fid == "F-C11-2" else None, what="component names / kinds / arguments / plain values")
+              finding=fid if fid == "F-C11-2" else None, what="component names / kinds / arguments / plain values" + tag)
     # ---- behaviour
     S2 = spec_answers(case)
     for i, q in enumerate(case["queries"]):
@@ -423,7 +490,7 @@ def judge_case(ctx, case, R, M):
         if fid and Mv is not None and not (cg.answer_exact(R["R"][i]) and cg.answer_exact(Mv)):
             Mv = None   # the rebuilt (wrong) model left the exact-double range: R and M cannot be compared exactly
             ctx.hist["finding_inexact_R"] = ctx.hist.get("finding_inexact_R", 0) + 1
-        ctx.judge(sub, R["R"][i], S, Mv, finding=fid, what=f"round trip, query {q[0]}")
+        ctx.judge(sub, R["R"][i], S, Mv, finding=fid, what=f"round trip, query {q[0]}{tag}")
 
 
 # --------------------------------------------------------------------------- entry points
@@ -452,6 +519,24 @@ CORPUS = [
                  "rxns": [["r", {"args": ["d2", "k"], "e": _F["sub"], "name": "g",
                                  "st": [["x", {"args": ["q", "k"], "e": _F["mul"], "name": "h"}]]}],
                           ["r_stoich_h", {"args": ["x"], "e": ["a", 0], "name": "r_stoich_h", "st": [["x", {"c": "-1"}]]}]]}},
+]
+
+
+def _rich(name, args, e):
+    return {"args": args, "e": ["a", 0], "name": name, "rich": True, "src": {"e": e, "floats": []}}
+
+
+CORPUS += [
+    # wider fragment: x % (1/p) is printed `(x % 1/p)` (F-C11-4)
+    {"content": {"vars": [["x", {"v": "4"}]], "pars": [["p", {"v": "4"}]],
+                 "derived": [["d", _rich("f", ["x", "p"], ["%", ["/", ["c", "125"], ["a", 0]], ["/", ["a", 1], ["*", ["a", 1], ["a", 1]]]])]],
+                 "rxns": [["r", dict(_rich("g", ["d", "x"], ["*", ["a", 0], ["a", 1]]), st=[["x", {"c": "-1"}]])]]},
+     "oracle_only": True, "queries": [["args", None, "0"], ["rhs", None, "0"]]},
+    # wider fragment: sympy simplifies (-5/2*x) % x to -x/2 (F-C11-5)
+    {"content": {"vars": [["x", {"v": "4"}]], "pars": [["p", {"v": "4"}]],
+                 "derived": [["d", _rich("f", ["x"], ["%", ["*", ["neg", ["a", 0]], ["c", "5/2"]], ["a", 0]])]],
+                 "rxns": [["r", dict(_rich("g", ["d", "x"], ["*", ["a", 0], ["a", 1]]), st=[["x", {"c": "-1"}]])]]},
+     "oracle_only": True, "queries": [["args", None, "0"], ["rhs", None, "0"]]},
 ]
 
 
